@@ -1,10 +1,11 @@
 (* Reflection obligations and non-vacuity examples for the shape model of ach.Reader (phase 5):
    coq/Model/ReaderShape.v against the type-aware site table regenerated from the current source
    (Gen/OpSites.v) and the hand table of the reader's state effects against Gen/ReaderEffects.v. *)
-From Coq Require Import String List Bool Arith.
+From Coq Require Import String List Bool Arith NArith Ascii.
 Import ListNotations.
 From ACH Require Import PartialTable PartialAccounted OpSiteTable OpSites TotalOps TotalOpsFacts TotalJson TotalJsonFacts
-  ReaderShape ReaderShapeFacts ReaderSiteTable ReaderEffectsTable ReaderEffects.
+  ReaderShape ReaderShapeFacts ReaderSiteTable ReaderEffectsTable ReaderEffects ReaderText ReaderTextFacts.
+From ACH Require Totality.
 
 (* ---- the table ties *)
 
@@ -166,3 +167,25 @@ Lemma site_guards_reachable :
      site_guard SIatControl s = true /\ site_guard SIatLastEntry s = true /\
      site_ok SIatControl s = true /\ site_ok SIatLastEntry s = true).
 Proof. vm_compute. split; [|split]; eexists; repeat split. Qed.
+
+(* ---- bytes to shapes: the premise of C06_read_text_total_partial is satisfiable — nine physical lines
+   (a short one is padded by readLine), their dispatch by the byte-level model, and the PPD line sequence
+   of [reader_examples] refining it *)
+Definition bytes_of_string (s : string) : Bytes.bytes :=
+  map (fun a => Ascii.N_of_ascii a) (list_ascii_of_string s).
+Definition text_line (first : string) (at50 : string) : Bytes.bytes :=
+  let b := bytes_of_string first in
+  (b ++ repeat 32%N (50 - List.length b) ++ bytes_of_string at50 ++ repeat 32%N (94 - 50 - String.length at50))%list.
+
+Definition sample_text : list Bytes.bytes :=
+  [text_line "101" ""; text_line "5200" "PPD"; text_line "622" ""; text_line "705" ""; text_line "705" "";
+   text_line "627" ""; text_line "8200" ""; bytes_of_string "9000001"; text_line "9999" ""].
+
+Lemma text_example :
+  exists recs, Totality.read_lines true sample_text = Totality.Ok recs /\
+    dispatched recs = [Totality.KFileHeader; Totality.KBatchHeader; Totality.KEntryDetail;
+                       Totality.KAddenda [48; 53]%N [32; 32; 32]%N; Totality.KAddenda [48; 53]%N [32; 32; 32]%N;
+                       Totality.KEntryDetail; Totality.KBatchControl; Totality.KFileControl; Totality.KPadding] /\
+    refines_all (dispatched recs) ppd_lines = true /\
+    refines_all (dispatched recs) adv_lines = false.
+Proof. vm_compute. eexists. repeat split. Qed.
